@@ -42,7 +42,7 @@ SPEC = dict(
     exhaustive="all sequences of the 19 small atoms up to the stated length",
     trusted_base=[
         "lean/Ecal/Model/Lexer.lean is a hand-written port of parser/lexer.go; its agreement with the Go lexer is tested on every run (this correspondence), not proved",
-        "unicode.IsNumber is modelled exactly only for ASCII and Latin-1 (irrelevant for positions of the generated inputs)",
+        "isSpace / isControl / isNumber / decodeRune of the model are hand copies of the Go tables (go1.23.5, Unicode 15.0.0); they are swept against unicode.IsSpace / IsControl / IsNumber / utf8.DecodeRune for U+0000-U+2FFF on every quick run and for every code point (incl. surrogates, out of range) on every thorough run (case kind U)",
         "the EOF clause (EOF line = line of the end of input; stale Pos/column = known finding eof-stale-position) is evaluated on every case, not proved",
         "errors_carry_token_pos: that parser.Error / util.RuntimeError copy Lline/Lpos of the offending token unchanged is checked by the planted-error cases, not proved (parser and interpreter are other properties' models)",
     ],
